@@ -1,8 +1,10 @@
 (** Property C02 — dynamic values cannot change document structure (HTML escaping).
     OBLIGATIONS: C02_escape_chars C02_unescape_escape C02_escape_injective C02_dynamic_text_code
                  C02_dynamic_attr_always_escaped C02_fragment_values_only_escaped
-                 C02_escaped_segment_is_inert C02_nonvacuous *)
-From GV Require Import Base.GoStr Proofs.EscapeProofs Compiler.Emit Proofs.EmitProofs Proofs.DynamicProofs Proofs.SegProofs.
+                 C02_escaped_segment_is_inert C02_nonvacuous
+                 C02_escaped_value_is_silent C02_structure_independent_of_value C02_structure_same_for_all_values
+                 C02_many_values C02_structure_nonvacuous *)
+From GV Require Import Base.GoStr Proofs.EscapeProofs Proofs.HtmlTokProofs Compiler.Emit Proofs.EmitProofs Proofs.DynamicProofs Proofs.SegProofs.
 Open Scope N_scope.
 
 (** an escaped value contains no angle bracket and no quote of either kind: it cannot open or close a tag or an attribute value *)
@@ -64,6 +66,49 @@ Proof.
   intros rho t b H. unfold eval_segs in H. cbn in H. rewrite app_nil_r in H. exact (escape_chars _ _ H).
 Qed.
 Print Assumptions C02_escaped_segment_is_inert.
+
+(** "document structure" as a tokenizer (Proofs/HtmlTokProofs.v: the tag-level states of the WHATWG tokenizer, reporting
+    tag starts / ends, attribute starts and the bytes of tag and attribute names): in character data and inside a quoted
+    attribute value an escaped value produces no structural event and leaves the tokenizer where it was *)
+Theorem C02_escaped_value_is_silent : forall st v, safe_ctx st -> hrun st (html_escape v) = (st, []).
+Proof. exact escaped_value_is_silent. Qed.
+Print Assumptions C02_escaped_value_is_silent.
+
+(** ... hence the structure of the whole document, and the state in which the tokenizer ends, are those of the document
+    with nothing inserted at the site: whatever the value *)
+Theorem C02_structure_independent_of_value : forall pre post v,
+  safe_ctx (fst (hrun Data pre)) ->
+  structure (pre ++ html_escape v ++ post) = structure (pre ++ post) /\
+  fst (hrun Data (pre ++ html_escape v ++ post)) = fst (hrun Data (pre ++ post)).
+Proof. exact structure_independent_of_value. Qed.
+Print Assumptions C02_structure_independent_of_value.
+
+Theorem C02_structure_same_for_all_values : forall pre post v v',
+  safe_ctx (fst (hrun Data pre)) ->
+  structure (pre ++ html_escape v ++ post) = structure (pre ++ html_escape v' ++ post).
+Proof. exact structure_same_for_all_values. Qed.
+Print Assumptions C02_structure_same_for_all_values.
+
+(** any number of sites: static parts with an escaped value between each two, every site in a safe context *)
+Theorem C02_many_values : forall parts vals st,
+  all_safe st parts -> List.length vals = pred (List.length parts) ->
+  hrun st (weave parts vals) = hrun st (List.concat parts).
+Proof. exact weave_structure. Qed.
+Print Assumptions C02_many_values.
+
+(** non-vacuity: the sites goht writes (element text, quoted attribute value) are safe contexts, with a hostile value;
+    and the contexts the theorem excludes are really unsafe (an unquoted attribute value; the tag name: known finding F38) *)
+Example C02_structure_nonvacuous :
+  safe_ctx (fst (hrun Data (lit "<p class=""c"">"))) /\ safe_ctx (fst (hrun Data (lit "<a href=""")))  /\
+  structure (lit "<a href=""" ++ html_escape (lit """><script>") ++ lit """>x</a>") =
+    [HOpen; HName 97; HAttr; HName 104; HName 114; HName 101; HName 102; HTagEnd; HClose; HName 97; HTagEnd] /\
+  structure (lit "<a b=" ++ html_escape (lit "x y") ++ lit ">") <> structure (lit "<a b=" ++ html_escape (lit "xy") ++ lit ">") /\
+  structure (lit "<li" ++ html_escape (lit "a") ++ lit ">") <> structure (lit "<li" ++ html_escape (lit "b") ++ lit ">").
+Proof.
+  split; [left; reflexivity|]. split; [right; left; reflexivity|]. split; [vm_compute; reflexivity|].
+  split; [exact unquoted_value_not_safe|exact tag_name_not_safe].
+Qed.
+Print Assumptions C02_structure_nonvacuous.
 
 Example C02_nonvacuous : html_escape (lit "<a href=""x"">&'") = lit "&lt;a href=&#34;x&#34;&gt;&amp;&#39;".
 Proof. vm_compute. reflexivity. Qed.
